@@ -15,6 +15,17 @@ def classify(prop, why, script, ev):
     """-> list of (key, summary) this property reports for one rejected cycle."""
     out = []
     drift = set(script.get("drift", []))
+    if script.get("profile") == "case":
+        # every identifier occurrence in the body is spelled in another case than its declaration
+        for w in why:
+            kind, _, rest = w.partition(":")
+            if kind == "outcome" and prop == "C01":
+                out.append(("static-error:case-variant-identifier" if rest == "UndefinedVariable" else f"crash-or-static-error:{rest}", f"outcome {rest} in a program whose identifiers differ in case from their declarations"))
+            elif kind in ("value", "fault-kind") and prop == "C02":
+                out.append(("value:case-variant-identifier", f"{w} in a program whose identifiers differ in case from their declarations"))
+            elif kind == "tag" and prop == "C03":
+                out.append(("tag-drift:other-path", f"{rest} holds a value whose tag is not its declared type"))
+        return out
     for w in why:
         kind, _, rest = w.partition(":")
         if kind == "outcome" and prop == "C01":
@@ -55,7 +66,7 @@ def run(prop, tier, replay):
         mc = run_tlc("MCStCore", "MCStCore", workers=1, timeout=600, tag=f"mc-{prop}")
         n_rand = 700 if tier == "quick" else 12000
         scripts = []
-        parts = [("matrix", ["--slice", s % 4, "--of", 4] if tier == "quick" else []), ("strict", ["--runs", n_rand]), ("natural", ["--runs", n_rand]), ("pous", ["--runs", n_rand])]
+        parts = [("matrix", ["--slice", s % 4, "--of", 4] if tier == "quick" else []), ("strict", ["--runs", n_rand]), ("natural", ["--runs", n_rand]), ("pous", ["--runs", n_rand]), ("case", ["--runs", max(100, n_rand // 5)])]
         for name, extra in parts:
             f = work / f"s_{name}.ndjson"
             tpv(["stcore-gen", "--seed", s, "--profile", name, "--out", f] + extra)
@@ -126,7 +137,7 @@ def run(prop, tier, replay):
         "states": max(mc["distinct"], 1) + len(rows), "transitions": max(mc["generated"], 1) + len(rows),
         "traces_validated_against_impl": len(runs),
         "programs_typed_core": len(runs), "cycles_validated": ncyc, "programs_wide_generator": len(wide_rows),
-        "profiles": {p: sum(1 for r in runs if scripts[r[0]["script"]]["profile"] == p) for p in ("matrix", "strict", "natural", "pous")},
+        "profiles": {p: sum(1 for r in runs if scripts[r[0]["script"]]["profile"] == p) for p in ("matrix", "strict", "natural", "pous", "case")},
         "outcomes": outcomes,
         "runtime_cycle_runs_tag_checked": rc_runs, "runtime_cycle_events_tag_checked": rc_events,
         "evaluations": len(runs) + len(wide_rows),
